@@ -8,6 +8,8 @@
 // After a branching statement a mutex counts as locked if some non-terminating branch leaves it
 // locked (conditional locking `if c { mu.Lock() } ... if c { mu.Unlock() }` is therefore
 // listed too: the Coq side carries an allow list for reviewed entries).
+// An x.Unlock()/x.RUnlock() reached on some path on which the mutex, taken earlier in the same
+// function, has been released already and not taken again is listed with kind "unlock".
 package main
 
 import (
@@ -21,6 +23,10 @@ import (
 func init() { extraGenerators = append(extraGenerators, genLockLeaks) }
 
 var lockLeakPkgs = append(append([]string{}, lockPkgs...), "pkg/replication", "pkg/grpc/service")
+
+// releasedMark + mutex expression in the same map: the mutex was taken and released again on some
+// path to this point (the map is merged by union after a branching statement, for both kinds)
+const releasedMark = "~"
 
 type heldLock struct {
 	loopDepth int // number of enclosing loops (of this function) when it was taken
@@ -69,7 +75,7 @@ func (ls *leakScan) scan(stmts []ast.Stmt, held map[string]heldLock, loopDepth i
 	report := func(kind string, minDepth int) {
 		var names []string
 		for m, h := range held {
-			if deferred[m] {
+			if deferred[m] || strings.HasPrefix(m, releasedMark) {
 				continue
 			}
 			if h.loopDepth >= minDepth {
@@ -86,7 +92,17 @@ func (ls *leakScan) scan(stmts []ast.Stmt, held map[string]heldLock, loopDepth i
 			switch m {
 			case "Lock", "RLock":
 				held[recv] = heldLock{loopDepth}
+				delete(held, releasedMark+recv)
 			default:
+				// released already on some path that reaches this statement (taken and released
+				// earlier in this function, not taken again): the runtime aborts the process with
+				// "unlock of unlocked mutex"
+				if _, was := held[releasedMark+recv]; was && !deferred[recv] {
+					*ls.rows = append(*ls.rows, fmt.Sprintf("(%q, %q, %q, %q)", ls.pkg, ls.fn, recv, "unlock"))
+				}
+				if _, is := held[recv]; is {
+					held[releasedMark+recv] = heldLock{loopDepth}
+				}
 				delete(held, recv)
 			}
 			continue
